@@ -399,7 +399,7 @@ Definition main27 (input observed : T) : T :=
   | _ => tErr 1
   end.
 
-Definition main_T (req : T) : T :=
+Definition main_T_base (req : T) : T :=
   match req with
   | L [I 27%Z; input; observed] => main27 input observed
   | L [I 28%Z; input; observed] => main28 input observed
